@@ -1,5 +1,6 @@
 import NutilsVerif.Core.Proto
 import NutilsVerif.Model.C20
+import NutilsVerif.Model.C20Unit
 open NutilsVerif NutilsVerif.Proto NutilsVerif.C20
 
 /-! Line protocol of the C20 model.  Fields are separated by `|`.
@@ -60,7 +61,7 @@ def errName : Err → String
 def serrName : SErr → String | .value => "value" | .zeroDiv => "zeroDiv"
 def perrName : PErr → String
   | .value => "value" | .zeroDiv => "zeroDiv" | .dimension => "dimension" | .typeErr => "type" | .exists_ => "exists"
-  | .collision => "collision" | .inexact => "inexact"
+  | .collision => "collision" | .inexact => "inexact" | .range => "range"
 
 def showUVal (v : UVal) : String := s!"{showPows v.dim}|{showRat v.val}"
 
@@ -80,6 +81,33 @@ def parseUDef (s : String) : Option UDef :=
   | _ => none
 
 def splitList (s : String) (sep : String) : List String := if s = "" then [] else s.splitOn sep
+
+/-! unit.py: a unit system is `name=value;name=~string` (`~` marks a string definition) -/
+def parseDefs (s : String) : Option Unit.Defs :=
+  (splitList s ";").mapM fun item =>
+    match item.splitOn "=" with
+    | [n, v] => if v.startsWith "~" then some (n.toList, Unit.Def.str (v.drop 1).toString.toList) else (parseRat v).map fun r => (n.toList, Unit.Def.num r)
+    | _ => none
+
+def uerrName : Unit.UErr → String | .value => "value" | .zeroDiv => "zeroDiv" | .recursion => "recursion" | .range => "range"
+def showIPows (l : List (String × Int)) : String := ",".intercalate (l.map fun e => s!"{e.1}:{e.2}")
+def showUQ (q : Unit.UQ) : String := s!"{showRat q.val}|{showIPows q.pows}"
+
+/-- `usys|defs|req;req;...` with req = `p~string` (parse) or `l~unit~string` (bound loads) or `c~string` (unbound call) -/
+def handleUnit (defs reqs : String) : String :=
+  match parseDefs defs with
+  | none => "bad-request"
+  | some D =>
+    match Unit.build D with
+    | .error e => s!"builderr|{uerrName e}"
+    | .ok Q =>
+      let one (r : String) : String :=
+        match r.splitOn "~" with
+        | ["p", s] => (match Unit.parse Q s.toList with | .ok q => s!"ok|{showUQ q}" | .error e => s!"err|{uerrName e}")
+        | ["l", u, s] => (match Unit.loads Q u.toList s.toList with | .ok v => s!"ok|{showRat v}" | .error e => s!"err|{uerrName e}")
+        | ["c", s] => (match Unit.loads Q (Unit.unboundUnit s.toList) s.toList with | .ok v => s!"ok|{showRat v}" | .error e => s!"err|{uerrName e}")
+        | _ => "bad"
+      "built|" ++ ";".intercalate (Q.map fun e => s!"{String.ofList e.1}={showUQ e.2}") ++ "#" ++ "#".intercalate ((splitList reqs ";").map one)
 
 def handle (U : UTable) (line : String) : UTable × String :=
   let pure' (s : String) := (U, s)
@@ -152,6 +180,12 @@ def handle (U : UTable) (line : String) : UTable × String :=
       match defineAll [] defs with
       | .ok U' => (U', s!"ok|{U'.length}")
       | .error e => pure' s!"err|{perrName e}"
+    | none => pure' "bad-request"
+  | ["usys", defs, reqs] => pure' (handleUnit defs reqs)
+  | ["sispec"] => pure' (";".intercalate (siSpec.map fun e => s!"{e.1}={showPows e.2.dim}={showRat e.2.val}"))
+  | ["checktable", defs] =>
+    match (splitList defs ";").mapM parseUDef with
+    | some defs => pure' (if checkTable defs then "1" else "0")
     | none => pure' "bad-request"
   | ["table"] => pure' (";".intercalate (U.map fun e => s!"{String.ofList e.1}={showPows e.2.dim}={showRat e.2.val}"))
   | ["parse", s] =>
